@@ -76,7 +76,7 @@ pub fn families(a: &Args, rng: &mut Rng) -> Vec<Fam> {
         v.push(Fam { t, fam: "many-classes" });
     }
     for (i, t) in complement_inside_family(&pool).into_iter().enumerate() {
-        if a.thorough() || i % 2 == (a.seed as usize) % 2 || i < 145 {
+        if a.thorough() || i % 2 == (a.seed as usize) % 2 || i < 285 {
             v.push(Fam { t, fam: "complement-inside" });
         }
     }
